@@ -2,27 +2,27 @@ package main
 
 func init() {
 	scope := &Prop{
-		ID: "C07", Label: "go-backend", Dir: "/repo", HarnessDirs: []string{"c07"}, Pkg: tgPath + "generator/golang", RealMeta: true,
+		ID: "C07", Label: "go-backend", HarnessDirs: []string{"c07"}, Pkg: tgPath + "generator/golang", RealMeta: true,
 		Diff: []string{"D_C07_digest"},
 		Harnesses: []Harness{
 			{Func: "H_C07_scope", Quick: [][]int64{{0, 1, 0}, {1, 1, 0}, {2, 1, 0}, {0, 1, 1}}, Thorough: [][]int64{{0, 1, 0}, {1, 1, 0}, {2, 1, 0}, {0, 1, 1}, {1, 1, 1}, {0, 2, 0}, {1, 2, 0}, {2, 2, 0}}, Covers: []string{"end"}, NativeRetries: 40},
 		},
 	}
 	fast := &Prop{
-		ID: "C07", Label: "fastgo", Dir: "/repo", HarnessDirs: []string{"c07f"}, Pkg: tgPath + "generator/fastgo",
+		ID: "C07", Label: "fastgo", HarnessDirs: []string{"c07f"}, Pkg: tgPath + "generator/fastgo",
 		Diff: []string{"D_C07_fastgo"},
 		Harnesses: []Harness{
 			{Func: "H_C07_fastgo", Quick: [][]int64{{0, 1}}, Thorough: [][]int64{{0, 1}, {0, 2}}, Covers: []string{"end"}, NativeRetries: 40},
 		},
 	}
 	req := &Prop{
-		ID: "C07", Label: "plugin-request", Dir: "/repo", HarnessDirs: []string{"c07p"}, Pkg: tgPath + "plugin",
+		ID: "C07", Label: "plugin-request", HarnessDirs: []string{"c07p"}, Pkg: tgPath + "plugin",
 		Harnesses: []Harness{
 			{Func: "H_C07_request", Quick: modes(1), Thorough: modes(1, 2), Covers: []string{"end"}, NativeRetries: 40},
 		},
 	}
 	patch := &Prop{
-		ID: "C07", Label: "patches", Dir: "/repo", HarnessDirs: []string{"c07g"}, Pkg: tgPath + "generator",
+		ID: "C07", Label: "patches", HarnessDirs: []string{"c07g"}, Pkg: tgPath + "generator",
 		Diff: []string{"D_C07_patches"},
 		Harnesses: []Harness{
 			{Func: "H_C07_patches", Quick: modes(1, 2), Thorough: modes(1, 2, 3), Covers: []string{"end"}, NativeRetries: 40},
